@@ -166,7 +166,7 @@ class Gen:
             if k == 0:
                 return ["identity", list(dims)], True, False
             if k == 1:
-                return ["measure", n, self.key(), None, list(dims), None], False, True
+                return self.measurement(dims), False, True
             if k == 2:
                 return ["reset", dims[0]], False, False
             return ["wait", self.duration(), list(dims)], False, False
@@ -188,12 +188,7 @@ class Gen:
                 return ["sqcliff", t.pick(("H", "X", "S", "X_sqrt", "Y_nsqrt", "Z_nsqrt", "I", "Y", "Z",
                                           "X_nsqrt", "Y_sqrt", "Z_sqrt"), "sqcliff")], True, False
             if k == 6:
-                inv = [t.draw(2, "measure.bit")] if t.chance(1, 2, "measure.invert") else None
-                conf = None
-                if t.chance(1, 4, "measure.confusion"):
-                    conf = [[[0], [[["f", 3, 4], ["f", 1, 4]], [["f", 1, 8], ["f", 7, 8]]]]]
-                    self.flags.add("confusion-map")
-                return ["measure", 1, self.key(), inv, None, conf], False, True
+                return self.measurement(dims), False, True
             if k == 7:
                 return ["channel", t.pick(("depolarize", "amplitude_damp", "phase_damp", "bit_flip", "phase_flip"),
                                           "channel"), t.pick(PROBS, "p")], False, False
@@ -227,8 +222,7 @@ class Gen:
                 return ["pfsim", t.pick(ANGLES, "theta"), t.pick(ANGLES, "zeta"), t.pick(ANGLES, "chi"),
                         t.pick(ANGLES, "gamma"), t.pick(ANGLES, "phi")], False, False
             if k == 4:
-                inv = [t.draw(2, "b0"), t.draw(2, "b1")] if t.chance(1, 2, "measure.invert") else None
-                return ["measure", 2, self.key(), inv, None, None], False, True
+                return self.measurement(dims), False, True
             if k == 5:
                 sub = t.pick((["g", "X"], ["g", "Z"], ["g", "H"], ["eigen", "YPow", ["f", 1, 2], ["i", 0]],
                               ["eigen", "ZPow", ["f", 1, 4], ["f", -1, 2]], ["g", "S"]), "controlled.sub")
@@ -263,7 +257,7 @@ class Gen:
             return ["eigen", t.pick(("CCXPow", "CCZPow"), "gate3.eigen"), self.param(EXPONENTS, "exponent", symbolic),
                     t.pick(SHIFTS, "shift")], True, False
         if k == 2:
-            return ["measure", 3, self.key(), None, None, None], False, True
+            return self.measurement(dims), False, True
         if k == 3:
             return ["controlled", ["g", t.pick(("CZ", "SWAP"), "controlled.sub2")], 1, None, None], True, False
         return ["perm", t.pick(([1, 2, 0], [2, 1, 0], [0, 2, 1]), "perm3")], False, False
@@ -282,20 +276,69 @@ class Gen:
         if deco == 1:
             op = ["tagged", op, self.tags()]
         elif deco == 2 and not measures:
-            conds = []
-            for _ in range(t.between(1, 2, "cop.n")):
-                ck = t.weighted([3, 2, 2], "cop.kind")
-                if ck == 0:
-                    conds.append(self.key_name())
-                elif ck == 1:
-                    conds.append(["keycond", self.mkey(), t.pick((-1, 0), "keycond.index")])
-                else:
-                    conds.append(["sympycond", self.key_name(), t.pick(("gt", "ge", "lt", "eq", "ne"), "cond.op"),
-                                  t.pick((0, 1), "cond.rhs")])
+            conds = [self.condition() for _ in range(t.between(1, 2, "cop.n"))]
             op = ["cop", op, conds]
             self.flags.add("classical-control")
             inv = False
         return op, inv
+
+    def condition(self):
+        """A classical condition of any of the three kinds, with boundary values (0 and other falsy /
+        non-default arguments are where readers and writers drop fields)."""
+        t = self.t
+        ck = t.weighted([3, 3, 3, 2], "cond.kind")
+        if ck == 0:
+            return self.key_name()                     # a plain string: KeyCondition(key)
+        if ck == 1:
+            return ["keycond", self.mkey(), t.pick((-1, 0, -2, 1), "keycond.index")]
+        if ck == 2:
+            key = self.key_name() if t.chance(1, 2, "bitmask.strkey") is False else self.mkey()
+            return ["bitmaskcond", key, t.pick((-1, 0, 1, -2), "bitmask.index"),
+                    t.pick((0, 1, 2, 5), "bitmask.target"), bool(t.draw(2, "bitmask.equal")),
+                    t.pick((None, 0, 1, 3, 13), "bitmask.mask")]
+        return ["sympycond", self.key_name(), t.pick(("gt", "ge", "lt", "eq", "ne"), "cond.op"),
+                t.pick((0, 1), "cond.rhs")]
+
+    def stochastic(self, n: int):
+        """An n x n row-stochastic matrix with entries in eighths (exact), drawn row by row: asymmetric with
+        overwhelming probability, so a permuted index order is visible."""
+        rows = []
+        for _ in range(n):
+            left, row = 8, []
+            for j in range(n - 1):
+                k = self.t.between(0, left, "stochastic.entry")
+                row.append(k)
+                left -= k
+            row.append(left)
+            # value 0 of every draw would give the last column all the weight: rotate so that the
+            # shrink target is a permutation-like matrix, still asymmetric
+            rows.append([["f", x, 8] for x in row])
+        return rows
+
+    def measurement(self, dims: Tuple[int, ...]):
+        """MeasurementGate with every optional argument exercised: key objects, partial invert masks,
+        qid_shape, confusion maps on one or two indices in ascending or non-ascending order."""
+        t = self.t
+        n = len(dims)
+        inv = None
+        if t.chance(1, 2, "measure.invert"):
+            inv = [t.draw(2, "measure.bit") for _ in range(t.between(1, n, "measure.masklen"))]
+        shape = list(dims) if (any(d != 2 for d in dims) or t.chance(1, 6, "measure.shape")) else None
+        conf = None
+        if t.chance(1, 3, "measure.confusion"):
+            conf = []
+            order = t.shuffle(list(range(n)), "measure.confusion.order")
+            if n >= 2 and t.chance(1, 2, "measure.confusion.pair") and dims[order[0]] * dims[order[1]] <= 6:
+                idx = [order[0], order[1]]
+                conf.append([idx, self.stochastic(dims[idx[0]] * dims[idx[1]])])
+                rest = order[2:]
+            else:
+                rest = order
+            if rest and (not conf or t.chance(1, 2, "measure.confusion.more")):
+                conf.append([[rest[0]], self.stochastic(dims[rest[0]])])
+            self.flags.add("confusion-map")
+            self.flags.add("numpy-payload")
+        return ["measure", n, self.key(), inv, shape, conf]
 
     def moment(self, pool: List[Tuple[list, int]], depth: int):
         t = self.t
@@ -485,8 +528,8 @@ class Gen:
     # -- top level ---------------------------------------------------------------------------------------------
     KINDS = ("qid", "op", "circuit", "frozen", "circuitop", "shared", "gate", "moment", "mkey", "pstring",
              "psum", "dps", "result", "sympy", "tableau", "cliffgate", "resolver", "sweep", "list", "dict",
-             "duration", "phasor", "coupler")
-    WEIGHTS = (6, 8, 10, 8, 10, 8, 6, 4, 3, 4, 2, 3, 3, 3, 3, 2, 2, 2, 4, 2, 1, 2, 1)
+             "duration", "phasor", "coupler", "condition")
+    WEIGHTS = (6, 8, 10, 8, 10, 8, 6, 4, 3, 4, 2, 3, 3, 3, 3, 2, 2, 2, 4, 2, 1, 2, 1, 4)
 
     def value(self, allow_container=True):
         """(kind, recipe)"""
@@ -519,6 +562,12 @@ class Gen:
             return kind, m
         if kind == "mkey":
             return kind, self.mkey()
+        if kind == "condition":
+            c = self.condition()
+            if isinstance(c, str):
+                c = ["keycond", ["mkey", c, []], -1]
+            self.flags.add("classical-control")
+            return kind, c
         if kind == "pstring":
             return kind, self.pauli_string()
         if kind == "psum":
@@ -580,3 +629,127 @@ def named_in_circuitop_in_frozen(recipe, in_frozen=False, in_cop=False) -> bool:
         # the operation's own circuit is a FrozenCircuit; the probe asks for an *enclosing* one as well
         return any(named_in_circuitop_in_frozen(x, in_frozen, in_cop or in_frozen) for x in recipe[1:])
     return any(named_in_circuitop_in_frozen(x, in_frozen, in_cop) for x in recipe)
+
+
+# ---------------------------------------------------------------------------------------------------------
+# (a) stored representations with mutated literals
+# ---------------------------------------------------------------------------------------------------------
+import ast  # noqa: E402
+
+_INTS = (0, 1, -1, 2, 3, 5)
+_FLOATS = (0.0, 0.5, -0.25, 1.0, 0.125)
+_STRS = ("x", "k2", "a_b", "", "q")
+
+
+def _const(value):
+    if isinstance(value, (int, float)) and not isinstance(value, bool) and value < 0:
+        return ast.UnaryOp(op=ast.USub(), operand=ast.Constant(value=-value))
+    return ast.Constant(value=value)
+
+
+class _Sites(ast.NodeVisitor):
+    """Collects (parent, field, index, node, kind) for every literal that can be mutated.  Keyword-argument
+    values and dict keys are ordinary children here, so they are hit like positional arguments."""
+
+    def __init__(self):
+        self.sites = []
+
+    def generic_visit(self, node):
+        for field, value in ast.iter_fields(node):
+            if isinstance(value, list):
+                for i, item in enumerate(value):
+                    if isinstance(item, ast.AST):
+                        self._consider(node, field, i, item)
+            elif isinstance(value, ast.AST):
+                self._consider(node, field, None, value)
+
+    def _consider(self, parent, field, index, node):
+        if isinstance(parent, ast.Attribute) or (isinstance(parent, ast.Call) and field == "func"):
+            self.generic_visit(node)
+            return
+        if isinstance(node, ast.UnaryOp) and isinstance(node.op, ast.USub) and isinstance(node.operand, ast.Constant) \
+                and isinstance(node.operand.value, (int, float)) and not isinstance(node.operand.value, bool):
+            self.sites.append((parent, field, index, node, "num"))
+            return
+        if isinstance(node, ast.Constant):
+            v = node.value
+            if isinstance(v, bool):
+                self.sites.append((parent, field, index, node, "bool"))
+            elif isinstance(v, (int, float)):
+                self.sites.append((parent, field, index, node, "num"))
+            elif isinstance(v, str):
+                self.sites.append((parent, field, index, node, "str"))
+            elif v is None:
+                self.sites.append((parent, field, index, node, "none"))
+            return
+        if isinstance(node, (ast.Tuple, ast.List)) and len(node.elts) >= 2 and all(
+                isinstance(e, ast.Constant) and isinstance(e.value, (int, bool)) for e in node.elts):
+            self.sites.append((parent, field, index, node, "seq"))
+        self.generic_visit(node)
+
+
+def _num_value(node):
+    if isinstance(node, ast.UnaryOp):
+        return -node.operand.value
+    return node.value
+
+
+def mutate_repr(tape, text: str):
+    """(mutated text, what was done) -- or (None, reason) when the text has nothing to mutate.  1-3 literals
+    are changed: ints -> small ints incl. 0 and negatives, floats -> exact small floats, bools flipped,
+    None <-> small value, strings -> another short string, sequences of ints reversed / rotated."""
+    try:
+        tree = ast.parse(text.strip(), mode="eval")
+    except SyntaxError:
+        return None, "unparsable"
+    v = _Sites()
+    v.visit(tree)
+    sites = v.sites
+    if not sites:
+        return None, "no-literals"
+    done = []
+    used = set()
+    for _ in range(1 + tape.weighted([5, 3, 2], "mutate.count")):
+        k = tape.draw(len(sites), "mutate.site")
+        if k in used:
+            continue
+        used.add(k)
+        parent, field, index, node, kind = sites[k]
+        if kind == "num":
+            old = _num_value(node)
+            if isinstance(old, float):
+                how = tape.weighted([8, 1], "mutate.float")
+                new = tape.pick([x for x in _FLOATS if x != old], "mutate.float.value") if how == 0 else None
+            else:
+                how = tape.weighted([8, 1], "mutate.int")
+                new = tape.pick([x for x in _INTS if x != old], "mutate.int.value") if how == 0 else None
+            repl = _const(new)
+            done.append(f"{type(old).__name__}->{new!r}")
+        elif kind == "bool":
+            repl = ast.Constant(value=not node.value)
+            done.append("bool-flip")
+        elif kind == "str":
+            how = tape.weighted([8, 1], "mutate.str")
+            new = tape.pick([x for x in _STRS if x != node.value], "mutate.str.value") if how == 0 else None
+            repl = ast.Constant(value=new)
+            done.append("str->None" if new is None else "str")
+        elif kind == "none":
+            new = tape.pick((0, 1, "x", 2), "mutate.none.value")
+            repl = ast.Constant(value=new)
+            done.append(f"None->{new!r}")
+        else:
+            elts = list(node.elts)
+            how = tape.draw(2, "mutate.seq")
+            elts = elts[::-1] if how == 0 else elts[1:] + elts[:1]
+            if [ast.dump(e) for e in elts] == [ast.dump(e) for e in node.elts]:
+                continue
+            repl = type(node)(elts=elts, ctx=ast.Load())
+            done.append("seq-reorder")
+        if index is None:
+            setattr(parent, field, repl)
+        else:
+            getattr(parent, field)[index] = repl
+    if not done:
+        return None, "no-change"
+    ast.fix_missing_locations(tree)
+    return ast.unparse(tree), "+".join(done)
